@@ -356,22 +356,27 @@ class AirTouchSocket(Generic[comms.Hdr]):
     async def _disconnect(self) -> None:
         _LOGGER.debug("_disconnect: is_connected=%s", self.is_connected)
 
-        if self._writer:
-            self._writer.close()
-            # wait_closed could raise an error if the socket has been closed by
-            # the other side. This will already have been logged, so just
-            # suppress it here.
-            # wait_closed() is shielded because it waits on a future shared by
-            # everyone waiting for this stream to close: if the task running
-            # this method is cancelled (close(), or a heartbeat task stopped
-            # during shutdown) the cancellation must not be passed on to that
-            # future, or every later wait_closed() raises CancelledError.
-            with contextlib.suppress(OSError):
-                await asyncio.shield(self._writer.wait_closed())
-
-        self.is_connected = False
-        self._reader = None
-        self._writer = None
+        try:
+            if self._writer:
+                self._writer.close()
+                # wait_closed could raise an error if the socket has been closed
+                # by the other side. This will already have been logged, so just
+                # suppress it here.
+                # wait_closed() is shielded because it waits on a future shared
+                # by everyone waiting for this stream to close: if the task
+                # running this method is cancelled (close(), or a heartbeat task
+                # stopped during shutdown) the cancellation must not be passed
+                # on to that future, or every later wait_closed() raises
+                # CancelledError.
+                with contextlib.suppress(OSError):
+                    await asyncio.shield(self._writer.wait_closed())
+        finally:
+            # Also when the caller is cancelled while waiting: the stream has
+            # been closed, so the socket must not go on believing that it is
+            # connected (nothing would ever connect it again).
+            self.is_connected = False
+            self._reader = None
+            self._writer = None
         await self._notify_connection_changed(connected=self.is_connected)
 
     async def reset_connection(self) -> None:
